@@ -15,15 +15,154 @@ pub open spec fn opv_frame<'a>(v: OperationTransformVisitor<'a>, v2: OperationTr
     // below the root of an expression the temporary counter is never reset (C06: no clobbering of live temporaries)
     &&& (!v.ctx.root ==> v2.ident_provider.st().counter >= v.ident_provider.st().counter)
 }
-impl<'a> VisitMutWith<OperationTransformVisitor<'a>> for AssignExpr {
+
+// C15 / C12 vocabulary.  `hooks(e)`: the number of `_ddiast.*` hook call sites in the tree `e` (abstract; its value on the
+// instrumented shapes is fixed by the bridge axioms next to the shape predicates in contracts/*.spec).
+pub uninterp spec fn hooks(e: Expr) -> nat;
+pub uninterp spec fn stmt_hooks(s: Stmt) -> nat;
+// an identifier or a literal contains no call at all
+pub broadcast axiom fn axiom_leaf_has_no_hooks(e: Expr)
+    requires (e is Ident) || (e is Lit),
+    ensures #[trigger] hooks(e) == 0;
+// accounting invariant of one visit: the propagation count moves exactly with the number of hook call sites, the file
+// status becomes Modified only if a hook was added, hooks are never removed, the operation pass never cancels.
+pub open spec fn acct<'a>(v: OperationTransformVisitor<'a>, v2: OperationTransformVisitor<'a>, h0: nat, h2: nat) -> bool {
+    &&& h2 >= h0
+    &&& (v.transform_status.status != Status::Cancelled && v.transform_status.telemetry.kind() != TelKind::NoOp
+            ==> v2.transform_status.telemetry.count() + h0 == v.transform_status.telemetry.count() + h2)
+    &&& (v.transform_status.telemetry.kind() == TelKind::NoOp ==> v2.transform_status.telemetry.count() == 0)
+    &&& (v.transform_status.status == Status::Cancelled ==> v2.transform_status.telemetry.count() == v.transform_status.telemetry.count())
+    &&& (v2.transform_status.status == Status::Cancelled <==> v.transform_status.status == Status::Cancelled)
+    &&& (v.transform_status.status == Status::NotModified && v2.transform_status.status == Status::Modified ==> h2 > h0)
+    &&& (v.transform_status.status == Status::NotModified && h2 > h0 ==> v2.transform_status.status == Status::Modified)
+    &&& v2.transform_status.msg == v.transform_status.msg
+}
+// C04: `c` is a call of a configured method in one of the receiver shapes the statement lists (fixed by unit U5's contracts);
+// the chain contains `recv?.m(..)` of a configured method that still has to be lowered (unit U7)
+pub uninterp spec fn pending_call(c: CallExpr, csi: CsiMethods) -> bool;
+pub uninterp spec fn pending_optchain(e: Expr, csi: CsiMethods) -> bool;
+// C04 vocabulary.  `children_done(e)`: every enabled operation strictly below the root of `e` has been given to the
+// visitor (abstract: its meaning is fixed by the traversal contracts below and the bridge axioms in contracts/opv.spec).
+pub uninterp spec fn children_done(e: Expr) -> bool;
+pub uninterp spec fn stmt_children_done(s: Stmt) -> bool;
+
+impl<'a> VisitMutWith<OperationTransformVisitor<'a>> for BinExpr {
     open spec fn vmc_req(self, v: OperationTransformVisitor<'a>) -> bool { v.transform_status.telemetry.wf() }
-    open spec fn vmc_ens(self, v: OperationTransformVisitor<'a>, s2: AssignExpr, v2: OperationTransformVisitor<'a>) -> bool {
-        opv_frame(v, v2) && s2.op == self.op && s2.span == self.span
+    open spec fn vmc_ens(self, v: OperationTransformVisitor<'a>, s2: BinExpr, v2: OperationTransformVisitor<'a>) -> bool {
+        &&& opv_frame(v, v2)
+        &&& acct(v, v2, hooks(Expr::Bin(self)), hooks(Expr::Bin(s2)))
+        &&& s2.op == self.op && s2.span == self.span
+        &&& children_done(Expr::Bin(s2))
     }
     #[verifier::external_body]
     fn visit_mut_children_with(&mut self, v: &mut OperationTransformVisitor<'a>) { unimplemented!() }
     open spec fn vm_req(self, v: OperationTransformVisitor<'a>) -> bool { v.transform_status.telemetry.wf() }
-    open spec fn vm_ens(self, v: OperationTransformVisitor<'a>, s2: AssignExpr, v2: OperationTransformVisitor<'a>) -> bool { opv_frame(v, v2) }
+    open spec fn vm_ens(self, v: OperationTransformVisitor<'a>, s2: BinExpr, v2: OperationTransformVisitor<'a>) -> bool { opv_frame(v, v2) && acct(v, v2, hooks(Expr::Bin(self)), hooks(Expr::Bin(s2))) }
     #[verifier::external_body]
     fn visit_mut_with(&mut self, v: &mut OperationTransformVisitor<'a>) { unimplemented!() }
+}
+
+impl<'a> VisitMutWith<OperationTransformVisitor<'a>> for AssignExpr {
+    open spec fn vmc_req(self, v: OperationTransformVisitor<'a>) -> bool { v.transform_status.telemetry.wf() }
+    open spec fn vmc_ens(self, v: OperationTransformVisitor<'a>, s2: AssignExpr, v2: OperationTransformVisitor<'a>) -> bool {
+        &&& opv_frame(v, v2)
+        &&& acct(v, v2, hooks(Expr::Assign(self)), hooks(Expr::Assign(s2)))
+        &&& s2.op == self.op && s2.span == self.span && (s2.left is Simple <==> self.left is Simple) && ((self.left matches AssignTarget::Simple(SimpleAssignTarget::Ident(_))) ==> s2.left == self.left) && ((s2.left matches AssignTarget::Simple(SimpleAssignTarget::Ident(_))) ==> (self.left matches AssignTarget::Simple(SimpleAssignTarget::Ident(_))))
+        &&& children_done(Expr::Assign(s2))
+    }
+    #[verifier::external_body]
+    fn visit_mut_children_with(&mut self, v: &mut OperationTransformVisitor<'a>) { unimplemented!() }
+    open spec fn vm_req(self, v: OperationTransformVisitor<'a>) -> bool { v.transform_status.telemetry.wf() }
+    open spec fn vm_ens(self, v: OperationTransformVisitor<'a>, s2: AssignExpr, v2: OperationTransformVisitor<'a>) -> bool { opv_frame(v, v2) && acct(v, v2, hooks(Expr::Assign(self)), hooks(Expr::Assign(s2))) }
+    #[verifier::external_body]
+    fn visit_mut_with(&mut self, v: &mut OperationTransformVisitor<'a>) { unimplemented!() }
+}
+
+impl<'a> VisitMutWith<OperationTransformVisitor<'a>> for Tpl {
+    open spec fn vmc_req(self, v: OperationTransformVisitor<'a>) -> bool { v.transform_status.telemetry.wf() }
+    open spec fn vmc_ens(self, v: OperationTransformVisitor<'a>, s2: Tpl, v2: OperationTransformVisitor<'a>) -> bool {
+        &&& opv_frame(v, v2)
+        &&& acct(v, v2, hooks(Expr::Tpl(self)), hooks(Expr::Tpl(s2)))
+        &&& s2.span == self.span && s2.quasis == self.quasis && s2.exprs@.len() == self.exprs@.len() && (forall|i: int| 0 <= i < self.exprs@.len() ==> ((*(#[trigger] self.exprs@[i]) is Lit) <==> (*s2.exprs@[i] is Lit)))
+        &&& children_done(Expr::Tpl(s2))
+    }
+    #[verifier::external_body]
+    fn visit_mut_children_with(&mut self, v: &mut OperationTransformVisitor<'a>) { unimplemented!() }
+    open spec fn vm_req(self, v: OperationTransformVisitor<'a>) -> bool { v.transform_status.telemetry.wf() }
+    open spec fn vm_ens(self, v: OperationTransformVisitor<'a>, s2: Tpl, v2: OperationTransformVisitor<'a>) -> bool { opv_frame(v, v2) && acct(v, v2, hooks(Expr::Tpl(self)), hooks(Expr::Tpl(s2))) }
+    #[verifier::external_body]
+    fn visit_mut_with(&mut self, v: &mut OperationTransformVisitor<'a>) { unimplemented!() }
+}
+
+impl<'a> VisitMutWith<OperationTransformVisitor<'a>> for CallExpr {
+    open spec fn vmc_req(self, v: OperationTransformVisitor<'a>) -> bool { v.transform_status.telemetry.wf() }
+    open spec fn vmc_ens(self, v: OperationTransformVisitor<'a>, s2: CallExpr, v2: OperationTransformVisitor<'a>) -> bool {
+        &&& opv_frame(v, v2)
+        &&& acct(v, v2, hooks(Expr::Call(self)), hooks(Expr::Call(s2)))
+        &&& s2.span == self.span && (s2.callee is Expr <==> self.callee is Expr)
+        &&& children_done(Expr::Call(s2))
+    }
+    #[verifier::external_body]
+    fn visit_mut_children_with(&mut self, v: &mut OperationTransformVisitor<'a>) { unimplemented!() }
+    open spec fn vm_req(self, v: OperationTransformVisitor<'a>) -> bool { v.transform_status.telemetry.wf() }
+    open spec fn vm_ens(self, v: OperationTransformVisitor<'a>, s2: CallExpr, v2: OperationTransformVisitor<'a>) -> bool { opv_frame(v, v2) && acct(v, v2, hooks(Expr::Call(self)), hooks(Expr::Call(s2))) }
+    #[verifier::external_body]
+    fn visit_mut_with(&mut self, v: &mut OperationTransformVisitor<'a>) { unimplemented!() }
+}
+
+impl<'a> VisitMutWith<OperationTransformVisitor<'a>> for Expr {
+    open spec fn vmc_req(self, v: OperationTransformVisitor<'a>) -> bool { v.transform_status.telemetry.wf() }
+    open spec fn vmc_ens(self, v: OperationTransformVisitor<'a>, s2: Expr, v2: OperationTransformVisitor<'a>) -> bool {
+        &&& opv_frame(v, v2)
+        &&& acct(v, v2, hooks(self), hooks(s2))
+        &&& expr_same_kind(self, s2) && ((self is Lit) ==> s2 == self) && ((self is OptChain) ==> (pending_optchain(s2, *v.csi_methods) <==> pending_optchain(self, *v.csi_methods)))
+        &&& children_done(s2)
+    }
+    #[verifier::external_body]
+    fn visit_mut_children_with(&mut self, v: &mut OperationTransformVisitor<'a>) { unimplemented!() }
+    open spec fn vm_req(self, v: OperationTransformVisitor<'a>) -> bool { v.transform_status.telemetry.wf() }
+    open spec fn vm_ens(self, v: OperationTransformVisitor<'a>, s2: Expr, v2: OperationTransformVisitor<'a>) -> bool { opv_frame(v, v2) && acct(v, v2, hooks(self), hooks(s2)) }
+    #[verifier::external_body]
+    fn visit_mut_with(&mut self, v: &mut OperationTransformVisitor<'a>) { unimplemented!() }
+}
+
+impl<'a> VisitMutWith<OperationTransformVisitor<'a>> for Stmt {
+    open spec fn vmc_req(self, v: OperationTransformVisitor<'a>) -> bool { v.transform_status.telemetry.wf() }
+    open spec fn vmc_ens(self, v: OperationTransformVisitor<'a>, s2: Stmt, v2: OperationTransformVisitor<'a>) -> bool {
+        &&& opv_frame(v, v2)
+        &&& acct(v, v2, stmt_hooks(self), stmt_hooks(s2))
+        &&& true
+        &&& stmt_children_done(s2)
+    }
+    #[verifier::external_body]
+    fn visit_mut_children_with(&mut self, v: &mut OperationTransformVisitor<'a>) { unimplemented!() }
+    open spec fn vm_req(self, v: OperationTransformVisitor<'a>) -> bool { v.transform_status.telemetry.wf() }
+    open spec fn vm_ens(self, v: OperationTransformVisitor<'a>, s2: Stmt, v2: OperationTransformVisitor<'a>) -> bool { opv_frame(v, v2) && acct(v, v2, stmt_hooks(self), stmt_hooks(s2)) }
+    #[verifier::external_body]
+    fn visit_mut_with(&mut self, v: &mut OperationTransformVisitor<'a>) { unimplemented!() }
+}
+
+impl<'a> VisitMutWith<OperationTransformVisitor<'a>> for IfStmt {
+    open spec fn vmc_req(self, v: OperationTransformVisitor<'a>) -> bool { v.transform_status.telemetry.wf() }
+    open spec fn vmc_ens(self, v: OperationTransformVisitor<'a>, s2: IfStmt, v2: OperationTransformVisitor<'a>) -> bool {
+        &&& opv_frame(v, v2)
+        &&& acct(v, v2, stmt_hooks(Stmt::If(self)), stmt_hooks(Stmt::If(s2)))
+        &&& s2.span == self.span && (s2.alt is Some <==> self.alt is Some)
+        &&& stmt_children_done(Stmt::If(s2))
+    }
+    #[verifier::external_body]
+    fn visit_mut_children_with(&mut self, v: &mut OperationTransformVisitor<'a>) { unimplemented!() }
+    open spec fn vm_req(self, v: OperationTransformVisitor<'a>) -> bool { v.transform_status.telemetry.wf() }
+    open spec fn vm_ens(self, v: OperationTransformVisitor<'a>, s2: IfStmt, v2: OperationTransformVisitor<'a>) -> bool { opv_frame(v, v2) }
+    #[verifier::external_body]
+    fn visit_mut_with(&mut self, v: &mut OperationTransformVisitor<'a>) { unimplemented!() }
+}
+
+// same variant (only the variants the contracts distinguish)
+pub open spec fn expr_same_kind(a: Expr, b: Expr) -> bool {
+    &&& (a is Lit <==> b is Lit) && (a is Ident <==> b is Ident) && (a is Bin <==> b is Bin) && (a is Assign <==> b is Assign)
+    &&& (a is Tpl <==> b is Tpl) && (a is Call <==> b is Call) && (a is OptChain <==> b is OptChain) && (a is Unary <==> b is Unary)
+    &&& (a is Arrow <==> b is Arrow) && (a is Paren <==> b is Paren) && (a is Array <==> b is Array) && (a is Member <==> b is Member)
+    &&& (a matches Expr::Unary(u) ==> b->Unary_0.op == u.op)
+    &&& (a matches Expr::Bin(u) ==> b->Bin_0.op == u.op)
 }
